@@ -39,6 +39,8 @@ type Verifier struct {
 	tableMode       string // "pinned" or "extracted"
 	svcTypes        map[string]*types.Named
 	checkAlloc      bool
+	minW            map[string]int64
+	byTag           map[string]*MsgType
 	tblTerms        map[string]tblRef
 	extracted       map[string]*ExtractedTable
 	initHooks       []func(x *Exec, st *State, o *Obj, k Value, bv *Term, val Value)
@@ -738,6 +740,79 @@ func (x *Exec) normalizeBuffers(st *State) {
 			st.mut(o).Seq = best
 		}
 	}
+}
+
+// expandSeq rewrites sequence variables by their defining equations in the path condition
+// (u_k == E_k ++ u_k+1), so that chains of callee post-conditions become one structured term.
+func expandSeq(st *State, t *Term) *Term {
+	defs := map[string]*Term{}
+	pieces := func(c *Term) int {
+		n := 0
+		fv := map[string]*Term{}
+		FreeVars(c, fv)
+		for k := range fv {
+			if strings.HasPrefix(k, "piece!") {
+				n++
+			}
+		}
+		return n
+	}
+	contains := func(hay, needle *Term) bool { return strings.Contains(hay.Key(), needle.Key()) }
+	for _, p := range st.pc {
+		if p.Op != "=" || p.Args[0].Sort != SSeq {
+			continue
+		}
+		for _, side := range []int{0, 1} {
+			v, rhs := p.Args[side], p.Args[1-side]
+			isDrop := v.Op == "app" && v.Name == "drop"
+			if !(v.Op == "var" || isDrop) || contains(rhs, v) || strings.HasPrefix(v.Name, "piece!") {
+				continue
+			}
+			if isDrop && (rhs.Op == "var" || len(Segs(rhs)) < 2) {
+				continue // an alias, not a decomposition
+			}
+			if old, ok := defs[v.Key()]; !ok || pieces(rhs) < pieces(old) {
+				defs[v.Key()] = rhs
+			}
+		}
+	}
+	// take(v,n) == X  together with  w == drop(v,n)  defines  v == X ++ w   (v any term)
+	for _, p := range st.pc {
+		if p.Op != "=" || p.Args[0].Sort != SSeq {
+			continue
+		}
+		for _, side := range []int{0, 1} {
+			tk, x := p.Args[side], p.Args[1-side]
+			if !(tk.Op == "app" && tk.Name == "take") {
+				continue
+			}
+			v := tk.Args[0]
+			dr := Drop(v, tk.Args[1])
+			if contains(x, v) {
+				continue
+			}
+			if old, ok := defs[v.Key()]; !ok || pieces(old) > 0 {
+				defs[v.Key()] = Cat(x, dr)
+			}
+		}
+	}
+	var rec func(t *Term, depth int) *Term
+	rec = func(t *Term, depth int) *Term {
+		if depth > 300 {
+			return t
+		}
+		var out []*Term
+		for _, s := range Segs(t) {
+			if d, ok := defs[s.Key()]; ok {
+				delete(defs, s.Key()) // each definition is used once along a chain
+				out = append(out, Segs(rec(d, depth+1))...)
+				continue
+			}
+			out = append(out, s)
+		}
+		return Cat(out...)
+	}
+	return rec(t, 0)
 }
 
 func mentions(t *Term, name string) bool {
